@@ -551,6 +551,10 @@ B("C11.render_scales_linearly", ["C11"], CB, "bounded_render_scales_linearly",
   "(x, y, x1.., cx, cy, r, rx, width, height, points, path data without the arc flags) is s times the value at scale 1 (relative tolerance 1e-3)",
   "38 small diagrams (bullets at either end and mid-line, arrows in 8 directions, double / dashed lines, boxes, rounded outlines with and without stub, circle, arcs, "
   "diagonals, text, box-drawing glyphs) x scales 0.5, 3, 8, 37.5; text inside shapes left out (known finding)")
+B("C03.labels_do_not_change_strokes", ["C03", "C04"], CB, "bounded_labels_do_not_change_strokes",
+  "CellBuffer::endorse_to_fragment_spans (From<Span> for PropertyBuffer, FragmentBuffer, Contacts, endorse, merge): the whole pipeline up to the fragments",
+  "blanking the label characters of a grid leaves the set of stroked points (lines and rect outlines, cut into quarter-unit pieces) unchanged",
+  "every grid of 1x5, 2x3, 3x2 cells over {space, -, |, +, a, 7} that contains a label (91 872 grids)", timeout=900)
 B("N1.get_size_every_route", ["C12"], CB, "bounded_get_size_every_route", "CellBuffer::get_size / get_node_with_size / From<&str> / DerefMut<Target = BTreeMap>",
   "the canvas follows the cells that are in the buffer now, whichever way they got there (parsed, inserted through the map interface, removed)",
   "5 texts x 64 subsets of 6 inserted cells x {keep, remove the last inserted} x scales 1, 8")
